@@ -252,6 +252,9 @@ func (c *Decoder) decodeIfStatement() (*ast.IfStatement, error) {
 				return nil, errors.WithStack(err)
 			}
 			stmt.Another = append(stmt.Another, another)
+		default:
+			// anything else (including the end of a truncated stream) would be skipped forever
+			return nil, typeMismatch(IF_STATEMENT, frame.Type())
 		}
 	}
 ANOTHER_END:
